@@ -126,6 +126,15 @@ class IoGenProblem(GenProblem):
                 a.add_effect(self.em.FluentExp(self.fluents[0]), True)
             p.add_action(a)
             self.actions.append(a)
+        # boundary probe: a precondition comparing a numeric fluent with the value it has initially (the action's
+        # applicability in the initial state is the comparison at the boundary: < vs <= , operand order)
+        nf0 = [f for f in self.num_fluents() if f.arity == 0 and p.initial_value(self.em.FluentExp(f)) is not None]
+        if nf0 and rng.random() < 0.7:
+            f = rng.choice(nf0)
+            v = p.initial_value(self.em.FluentExp(f))
+            op = rng.choice([self.em.LT, self.em.LE, self.em.GT, self.em.GE, self.em.Equals])
+            x, y = (self.em.FluentExp(f), v) if rng.random() < 0.5 else (v, self.em.FluentExp(f))
+            rng.choice(self.actions).add_precondition(op(x, y))
         for _ in range(rng.randint(1, 2)):
             for _try in range(6):
                 goal = self.gen_bool(2, [], ())
@@ -312,10 +321,12 @@ def key_through(get_item_named, lower=False):
     """key function for a re-read problem: names go back through the writer's renaming; an item the writer never
     named (e.g. the PDDL root type `object`) keeps a marked name"""
     def key(kind, item):
-        try:
-            return get_item_named(item.name).name
-        except Exception:  # noqa
-            return "<unmapped:%s>" % item.name
+        for nm in ((("?" + item.name), item.name) if kind == "var" else (item.name,)):   # the writer names variables ?v
+            try:
+                return get_item_named(nm).name
+            except Exception:  # noqa
+                pass
+        return "<unmapped:%s>" % item.name
     return key
 
 
@@ -337,6 +348,55 @@ def canon(e):
                 return self.manager.And(self.manager.Implies(args[0], args[1]), self.manager.Implies(args[1], args[0]))
         _EXPANDERS[env] = Expander(env)
     return _EXPANDERS[env].walk(e.simplify()).simplify()
+
+
+def ser_canon(e, names):
+    """ser_expr of canon(e) with the operands of the commutative operators (and, or, +, *) sorted by their rendering
+    (PDDLWriter prints the operands of + and * in reverse order): used for structural comparisons only"""
+    from harness.ser import ser_vars
+    memo = {}
+
+    def go(n):
+        if n in memo:
+            return memo[n]
+        a = [go(x) for x in n.args]
+        if not a:
+            r = ser_expr(n, names)
+        elif n.is_and():
+            r = "(EAnd %s)" % glist(sorted(a))
+        elif n.is_or():
+            r = "(EOr %s)" % glist(sorted(a))
+        elif n.is_plus():
+            r = "(EPlus %s)" % glist(sorted(a))
+        elif n.is_times():
+            r = "(ETimes %s)" % glist(sorted(a))
+        elif n.is_not():
+            r = "(ENot %s)" % a[0]
+        elif n.is_implies():
+            r = "(EImplies %s %s)" % (a[0], a[1])
+        elif n.is_iff():
+            r = "(EIff %s %s)" % (a[0], a[1])
+        elif n.is_exists():
+            r = "(EExists %s %s)" % (ser_vars(n.variables(), names), a[0])
+        elif n.is_forall():
+            r = "(EForall %s %s)" % (ser_vars(n.variables(), names), a[0])
+        elif n.is_minus():
+            r = "(EMinus %s %s)" % (a[0], a[1])
+        elif n.is_div():
+            r = "(EDiv %s %s)" % (a[0], a[1])
+        elif n.is_le():
+            r = "(ELe %s %s)" % (a[0], a[1])
+        elif n.is_lt():
+            r = "(ELt %s %s)" % (a[0], a[1])
+        elif n.is_equals():
+            r = "(EEquals %s %s)" % (a[0], a[1])
+        elif n.is_fluent_exp():
+            r = "(EFluent %s %s)" % (gn(names.fl(n.fluent())), glist(a))
+        else:
+            raise ValueError("expression outside the modelled IR: %s" % n)
+        memo[n] = r
+        return r
+    return go(canon(e))
 
 
 class IoSer:
@@ -444,12 +504,20 @@ class IoSer:
             self.timing(iv.lower), self.timing(iv.upper), gbool(iv.is_left_open()), gbool(iv.is_right_open()))
 
     def seffect(self, e):
-        """an effect with every expression simplified (temporal structures are compared structurally modulo the
-        Simplifier, which both writers apply to every expression they print)"""
-        e2 = e.clone()
-        e2.set_value(canon(e.value))
-        e2.set_condition(canon(e.condition))
-        return self.effect(e2)
+        """an effect with its expressions in the normal form of `canon` / `ser_canon` (temporal structures are compared
+        structurally modulo the Simplifier, which both writers apply to every expression they print); None for an
+        effect whose condition is constantly false (it never fires and the writers do not print it)"""
+        n = self.names
+        cond = canon(e.condition)
+        if cond.is_false():
+            return None
+        kind = "KAssign" if e.is_assignment() else ("KInc" if e.is_increase() else "KDec")
+        if not (e.is_assignment() or e.is_increase() or e.is_decrease()):
+            raise ValueError("effect kind outside the model: %s" % e)
+        return ("{| e_fl := %s; e_args := %s; e_val := %s; e_cond := %s; e_kind := %s; e_vars := %s; e_isbool := %s |}" % (
+            gn(n.fl(e.fluent.fluent())), glist([ser_canon(x, n) for x in e.fluent.args]), ser_canon(e.value, n),
+            ser_canon(cond, n), kind,
+            glist([gpair(gn(n.var(v)), gn(n.ty(v.type))) for v in e.forall]), gbool(e.fluent.type.is_bool_type())))
 
     def cond_parts(self, iv):
         """PDDL can only say `at start`, `over all` (open interval) and `at end`: a condition over [start, end] is the
@@ -470,13 +538,13 @@ class IoSer:
         n = self.names
         n.set_params(a.parameters)
         d = a.duration
-        conds = [gpair(part, ser_expr(canon(c), n)) for iv, cl in a.conditions.items() for c in cl
+        conds = [gpair(part, ser_canon(c, n)) for iv, cl in a.conditions.items() for c in cl
                  for part in self.cond_parts(iv) if not (self.split_intervals and c.simplify().is_true())]
-        effs = [gpair(self.timing(t), self.seffect(e)) for t, el in a.effects.items() for e in el]
+        effs = [gpair(self.timing(t), self.seffect(e)) for t, el in a.effects.items() for e in el if self.seffect(e) is not None]
         if getattr(a, "continuous_effects", None):
             raise ValueError("continuous effects are outside the model")
         return ("{| da_sig := %s; da_dlo := %s; da_dhi := %s; da_dlopen := %s; da_dropen := %s; da_conds := %s; da_effs := %s |}" % (
-            glist([gn(n.ty(pp.type)) for pp in a.parameters]), ser_expr(canon(d.lower), n), ser_expr(canon(d.upper), n),
+            glist([gn(n.ty(pp.type)) for pp in a.parameters]), ser_canon(d.lower, n), ser_canon(d.upper, n),
             gbool(d.is_left_open()), gbool(d.is_right_open()), glist(conds), glist(effs)))
 
     @staticmethod
@@ -493,8 +561,8 @@ class IoSer:
         n, p = self.names, self.problem
         acts = glist([gpair(gn(n.act(a)), self.daction(a)) for a in self.dactions])
         n.set_params([])
-        teffs = [gpair(self.timing(t), self.seffect(e)) for t, el in p.timed_effects.items() for e in el]
-        tgoals = [gpair(self.interval(iv), ser_expr(canon(g), n)) for iv, gl in p.timed_goals.items() for g in gl]
+        teffs = [gpair(self.timing(t), self.seffect(e)) for t, el in p.timed_effects.items() for e in el if self.seffect(e) is not None]
+        tgoals = [gpair(self.interval(iv), ser_canon(g, n)) for iv, gl in p.timed_goals.items() for g in gl]
         return "{| ts_actions := %s; ts_teffs := %s; ts_tgoals := %s |}" % (acts, glist(teffs), glist(tgoals))
 
 
